@@ -107,30 +107,34 @@ Definition capture (s : bytes) : bytes * bytes :=
   | [] => ([], [])
   end.
 
+(* the expression after the key: optional `= value`, then the terminator.
+   [w0] blanks before the key, [km] the key text as matched, [s2] what follows it *)
+Definition after_key (w0 km s2 : bytes) : option (bytes * bytes * bytes) :=
+  let (w1, s3) := span is_ws s2 in
+  let nogroup :=
+    match term s2 with
+    | Some (tm, post) => Some (w0 ++ km ++ tm, post, [])
+    | None => None
+    end in
+  match s3 with
+  | c :: s4 =>
+    if byte_eqb c c_eq then
+      let (w2, s5) := span is_ws s4 in
+      let (cap, s6) := capture s5 in
+      match term s6 with
+      | Some (tm, post) => Some (w0 ++ km ++ w1 ++ c :: w2 ++ cap ++ tm, post, cap)
+      | None => None   (* not reachable: the unquoted alternative always stops at a terminator *)
+      end
+    else nogroup
+  | [] => nogroup
+  end.
+
 (* the expression after the anchor: (text matched, rest, capture group 1) *)
 Definition match_at (k s : bytes) : option (bytes * bytes * bytes) :=
   let (w0, s1) := span is_ws s in
   match strip_key k s1 with
   | None => None
-  | Some (km, s2) =>
-    let (w1, s3) := span is_ws s2 in
-    let nogroup :=
-      match term s2 with
-      | Some (tm, post) => Some (w0 ++ km ++ tm, post, [])
-      | None => None
-      end in
-    match s3 with
-    | c :: s4 =>
-      if byte_eqb c c_eq then
-        let (w2, s5) := span is_ws s4 in
-        let (cap, s6) := capture s5 in
-        match term s6 with
-        | Some (tm, post) => Some (w0 ++ km ++ w1 ++ c :: w2 ++ cap ++ tm, post, cap)
-        | None => None   (* not reachable: Proofs/HdrField.capture_term *)
-        end
-      else nogroup
-    | [] => nogroup
-    end
+  | Some (km, s2) => after_key w0 km s2
   end.
 
 (* leftmost match: (before, matched, after, capture) *)
